@@ -35,7 +35,7 @@ RULE = ("each run generates a redirect graph over 2-8 URLs on up to three hosts 
         "issues 1-3 fetches; results are compared with a walk of the graph. distinct = distinct "
         "(graph shape, max_redirects, result class) signatures; non-trivial = the walk contained "
         "at least one redirect")
-PROBES = ["hop_stalls_or_resets_after_its_3x_header", "overlapping_fetches_with_certificate_rotation", "hop_closed_without_header", "redirect_target_host_in_upper_case", "chain_exactly_max", "chain_longer_than_max", "cycle", "self_loop", "cross_host_hop",
+PROBES = ["hop_speaks_first_tls12", "slow_hops_sum_exceeds_timeout", "hop_stalls_or_resets_after_its_3x_header", "overlapping_fetches_with_certificate_rotation", "hop_closed_without_header", "redirect_target_host_in_upper_case", "chain_exactly_max", "chain_longer_than_max", "cycle", "self_loop", "cross_host_hop",
           "grey_target", "non_gemini_target", "cert_changed_on_hop", "cert_swapped_on_later_hop", "overlapping_fetches", "sql_fault_during_fetch", "follow_disabled",
           "max_redirects_zero", "final_after_redirects"]
 COMPONENTS = {
@@ -97,6 +97,17 @@ def run_one(ch):
                 grey = ch.pick("scheme", ["titan://h0.sim/n0;size=0", "gopher://h0.sim/1",
                                           "https://h0.sim/", "//h0.sim/n0", "mailto:x@y"])
             nd.update(kind="grey", meta=grey, status=30, greykind=k)
+    # one host may be a TLS 1.2 server that answers before it has seen any request: response
+    # and close travel in the flight of its Finished (all its paths answer the same 20)
+    speak_host = HOSTS[ch.choose("speakhost", 3)] if ch.chance("speakfirst", 0.15) else None
+    if speak_host is not None:
+        for nd in nodes:
+            if nd["host"] == speak_host:
+                for k_ in ("target", "meta", "status", "after", "cut", "greykind", "spelled"):
+                    nd.pop(k_, None)
+                nd.update(kind="final", spoke=True)
+    # every hop may take its time (well within the client's 10 s timeout per hop)
+    hop_delay = ch.pick("hopdelay", [0.0, 0.0, 4.0])
     max_r = ch.choose("max", 7)
     # overlapping fetches on ONE client (staggered starts, servers answer after a
     # short delay so that a fetch is between two hops when the next one starts)
@@ -119,6 +130,9 @@ def run_one(ch):
 
     def behaviour(host):
         def beh(idx, server):
+            if host == speak_host:
+                return {"script": [("call", lambda peer: peer.send_app(
+                    f"20 text/plain\r\nspoke first on {host}\n".encode())), ("close",)]}
             def respond(peer):
                 if b"\r\n" not in peer.rx_plain:
                     return        # the client went away without sending a request
@@ -157,9 +171,14 @@ def run_one(ch):
             if concurrent:
                 return {"script": [("wait_line",), ("sleep", 0.02), ("call", respond), ("call", after),
                                    ("close",)]}
+            if hop_delay:
+                return {"script": [("wait_line",), ("sleep", hop_delay), ("call", respond), ("call", after),
+                                   ("close",)]}
             return {"script": [("wait_line",), ("call", respond), ("call", after), ("close",)]}
         return beh
     servers = {h: ScriptedServer(sim, h, 1965, certs[h], behaviour(h)) for h in HOSTS}
+    if speak_host is not None:
+        servers[speak_host].tls12 = True
     for h, n_ in swap_after.items():
         servers[h].cert_queue = [certs[h]] * n_
         servers[h].cert = "rsa3"
@@ -339,6 +358,9 @@ def run_one(ch):
         if v == "final":
             nd = nodes[verdict[1]]
             want = f"node {nd['path']} on {nd['host']}\n"
+            if nd.get("spoke"):
+                want = f"spoke first on {nd['host']}\n"
+                st["hop_speaks_first_tls12"] = 1
             if got[0] != "resp" or got[1] != 20 or got[3] != want:
                 key = "chain-within-limit-not-followed" if verdict[2] else "plain-fetch-failed"
                 if verdict[2] == max_r and max_r > 0:
@@ -403,6 +425,8 @@ def run_one(ch):
                 pins[h_] = certs[h_] if (n_ is None or before_counts[h_] < n_) else "rsa3"
         if max_r == 0:
             st["max_redirects_zero"] = 1
+        if hop_delay and not concurrent and verdict[0] == "final" and verdict[2] >= 2:
+            st["slow_hops_sum_exceeds_timeout"] = 1
         sigparts.append((v, verdict[2] if len(verdict) > 2 else 0, got[0]))
 
     if rotating:
